@@ -291,6 +291,33 @@ CHECKS = {
          "transporting datagram); groups without process data are skipped",
          "layout invariant monitor after the real allocation + data-path "
          "probe through the simulated bus", "4 C18"),
+ "C24": ("fault_enumeration",
+         "For slow and fast sync groups (fast: real program load and real "
+         "PROG_ARRAY) on the simulated bus, a baseline run counts the event "
+         "loop iterations until three cycles are done and every (quick: "
+         "every second) iteration is then used as a cancellation point in a "
+         "fresh run; the parent side of the process-based kind is cancelled "
+         "at several times with a real spawned child. After each injection: "
+         "the task must end cancelled, every terminal model that saw an "
+         "OPERATIONAL request must have seen SAFE-OPERATIONAL afterwards, "
+         "all FMMU slots must be free, the kernel program table entry gone, "
+         "the child exited.",
+         "one cancellation per run, not inside the clean-up; the child of "
+         "the process-based kind is a stand-in obeying the running flag "
+         "(the real subprocess_run needs a NIC and RT scheduling)",
+         "fault (cancellation) injection at every scheduling point + "
+         "post-condition monitor on simulated hardware and kernel state",
+         "4 C24"),
+ "C30": ("exploration",
+         "The real SyncGroup.start()/run() cycles on the virtual loop "
+         "against the bus model, which feeds cycle-dependent input patterns, "
+         "wrong working counters and lost frames; a history checker over the "
+         "frames sent, responses, device-visible inputs, outputs and the "
+         "error count verifies the data flow cycle by cycle and the exact "
+         "error accounting from the second cycle on.",
+         "random runs (128 per quick run, 8-30 cycles each)",
+         "offline history checker over recorded frames and hook on "
+         "update_devices", "4 C30"),
 }
 
 NOT_YET = "check not built yet in this round (design in DESIGN.md section 4)"
